@@ -477,7 +477,67 @@ def run(repo: Repo, ctx) -> None:
            '_maybe_schedule_tick does not arm the timer for _tick', mst.loc,
            sample='_htick = loop.call_later(..., self._tick)')
 
+    # with a request outstanding and no tick pending, every path of
+    # _maybe_schedule_tick arms the timer (no further way out)
+    from ..absint import Facts, must_pass
+    gm = CFG(mst.node, raise_pred=lambda e: False, assert_raises=False)
+    arm = [n.id for n in gm.nodes if any(
+        isinstance(c.func, ast.Attribute) and c.func.attr in (
+            'call_later', 'call_at', 'call_soon')
+        for c in gm.node_calls(n))]
+    F = Facts({'self._nacquires': True, 'self._htick is not None': False,
+               'self._htick is None': True}, mst.node)
+    ok = bool(arm) and must_pass(gm, F, arm)
+    ctx.ob('C16.R5', f'{short(mst)}:armed-whenever-outstanding', ok,
+           '_maybe_schedule_tick can return without arming the timer '
+           'although an acquire is outstanding and no tick is pending: '
+           'acquire() calls it before the new block exists, so the first '
+           'request for a second database at full capacity never gets a '
+           'rebalancing tick and waits forever', mst.loc,
+           sample='_nacquires and _htick is None => call_later(_tick)')
+
     _r6(repo, ctx, pm)
+    _r7(repo, ctx, pm)
+
+
+def _r7(repo: Repo, ctx, pm) -> None:
+    """A block that is about to wait is not suppressed: suppressed blocks
+    are passed over by every hand-over of the rebalancer."""
+    ctx.floor('C16.R7', 2)
+    acq = repo.find_method(pm.pool.qualname, '_acquire')
+    ctx.saw(acq)
+    g = CFG(acq.node, raise_pred=lambda e: False, assert_raises=False)
+    waits = []
+    for n in g.nodes:
+        for c in g.node_calls(n):
+            if isinstance(c.func, ast.Attribute) and c.func.attr == 'acquire' \
+                    and isinstance(c.func.value, ast.Name):
+                waits.append((n.id, c.func.value.id, c))
+    if not waits:
+        raise AnalysisError('C16.R7: waits of Pool._acquire not found')
+    readers = sorted({f.name for f in pm.funcs for x in ast.walk(f.node)
+                      if isinstance(x, ast.Attribute) and x.attr ==
+                      'suppressed' and isinstance(x.ctx, ast.Load)})
+    setters = sorted({f.name for f in pm.funcs for a in ast.walk(f.node)
+                      if isinstance(a, ast.Assign) and norm(
+                          a.targets[0]).endswith('.suppressed')
+                      and norm(a.value) == 'True' and f.name != '__init__'})
+    ctx.ob('C16.R7', 'suppressed:readers', bool(readers), '', acq.loc,
+           sample=f'read by {readers}; set by {setters}', nontrivial=False)
+    if not readers or not setters:
+        return
+    for nid, blk, c in waits:
+        clr = [n.id for n in g.nodes if n.kind == 'stmt' and isinstance(
+            n.ast, ast.Assign) and norm(n.ast.targets[0]) ==
+            f'{blk}.suppressed' and norm(n.ast.value) == 'False']
+        ok = bool(clr) and g.always_before(nid, clr)
+        ctx.ob('C16.R7', f'Pool._acquire:unsuppressed-before-wait@L'
+               f'{c.lineno - acq.node.lineno}', ok,
+               f'Pool._acquire can wait on `{blk}` without having cleared '
+               f'{blk}.suppressed: a block pruned by {setters} stays '
+               f'suppressed with a live waiter, {readers} pass it over, '
+               f'and the request is never handed a connection',
+               acq.loc, sample=f'{blk}.suppressed = False dominates')
 
 
 def _r6(repo: Repo, ctx, pm) -> None:
